@@ -102,22 +102,83 @@ def exponents(interp, ts, i, j, x, t0):
     return ci, cj, (first, cj_first)
 
 
+def as_frac(term):
+    """a z3 real term n/d as the fraction F(n, d) (so that identities about it stay division-free)"""
+    if z3.is_app(term) and term.decl().kind() == z3.Z3_OP_DIV:
+        return F(term.arg(0), term.arg(1))
+    return F(term)
+
+
+def subst_F(f, x, v):
+    n, d = f.pair()
+    return F(z3.substitute(n, (x, v)), z3.substitute(d, (x, v)))
+
+
+def _int_only(e, cache):
+    k = e.get_id()
+    if k in cache:
+        return cache[k]
+    r = not z3.is_real(e) and all(_int_only(c, cache) for c in e.children())
+    cache[k] = r
+    return r
+
+
+def settled(m, cond, timeout_ms=3000):
+    """is the (linear, integer) condition already decided by the path condition?  True / False / None.
+    Asked of a side solver holding only the integer-sorted part of the path condition (dates and orderings): fewer
+    facts can only make it answer None more often, never a wrong True/False."""
+    st = getattr(m, "_int_solver", None)
+    if st is None or st[1] > len(m.pc):
+        st = [z3.Solver(), 0, {}]
+        st[0].set("timeout", timeout_ms)
+        m._int_solver = st
+    sv, done, cache = st
+    for c in m.pc[done:]:
+        c = bz(c)
+        if _int_only(c, cache):
+            sv.add(c)
+    st[1] = len(m.pc)
+    cond = bz(cond)
+    if not _int_only(cond, cache):
+        return None
+    sv.push(); sv.add(z3.Not(cond)); r1 = sv.check(); sv.pop()
+    if r1 == z3.unsat:
+        return True
+    sv.push(); sv.add(cond); r2 = sv.check(); sv.pop()
+    if r2 == z3.unsat:
+        return False
+    return None
+
+
 def value_props(m, S, interp, ts, ys, x, res, tag=""):
-    """list of (desc, prop): the looked-up value equals the rule's closed form on the selected adjacent pair"""
+    """list of (desc, prop): the looked-up value equals the rule's closed form on the selected adjacent pair.
+    The path through the sort and the bisection normally fixes the date order and the interval, so each
+    'this pair is the selected one' guard is first settled against the path condition (linear integer query);
+    only an undetermined guard stays as an implication."""
     n = len(ts)
     props = []
     rr = real_of(S, res)
     t0 = None
     if interp == "linear_zero_rate":
-        t0 = z3.Int("t0min")
-        m.assume(z3.Or(*[t0 == t for t in ts]))
-        for t in ts:
-            m.assume(t0 <= t)
+        for k in range(n):
+            if settled(m, z3.And(*[ts[k] <= t for t in ts])) is True:
+                t0 = ts[k]
+                break
+        if t0 is None:
+            t0 = z3.Int("t0min")
+            m.assume(z3.Or(*[t0 == t for t in ts]))
+            for t in ts:
+                m.assume(t0 <= t)
     for i in range(n):
         for j in range(n):
             if i == j:
                 continue
             sel = selects(ts, i, j, x)
+            g = settled(m, sel)
+            if g is False:
+                continue
+            if g is True:
+                sel = z3.BoolVal(True)
             if interp == "linear":
                 w = fr_bin("div", fr_bin("sub", tF(x), tF(ts[i])), fr_bin("sub", tF(ts[j]), tF(ts[i])))
                 want = fr_bin("add", ys[i], fr_bin("mul", fr_bin("sub", ys[j], ys[i]), w))
@@ -133,12 +194,18 @@ def value_props(m, S, interp, ts, ys, x, res, tag=""):
                 lni, lnj = F(m.ufun("ln", ys[i].z())), F(m.ufun("ln", ys[j].z()))
                 rz = rr.z()
                 if z3.is_app(rz) and rz.decl().name() == "exp":
-                    arg = F(rz.arg(0))
+                    arg = as_frac(rz.arg(0))
                     want = fr_bin("add", fr_bin("mul", ci, lni), fr_bin("mul", cj, lnj))
                     if first is not None:
                         c, cjf = first
                         want_first = fr_bin("mul", cjf, lnj)
-                        props.append((f"{tag}{interp} exponent on nodes {i},{j}", z3.Implies(sel, z3.If(c, fr_eq(arg, want_first), fr_eq(arg, want)))))
+                        gc = settled(m, c) if not isinstance(c, bool) else c
+                        if gc is True:
+                            props.append((f"{tag}{interp} exponent on nodes {i},{j} (first interval)", z3.Implies(sel, fr_eq(arg, want_first))))
+                        elif gc is False:
+                            props.append((f"{tag}{interp} exponent on nodes {i},{j}", z3.Implies(sel, fr_eq(arg, want))))
+                        else:
+                            props.append((f"{tag}{interp} exponent on nodes {i},{j}", z3.Implies(sel, z3.If(c, fr_eq(arg, want_first), fr_eq(arg, want)))))
                     else:
                         props.append((f"{tag}{interp} exponent on nodes {i},{j}", z3.Implies(sel, fr_eq(arg, want))))
                 else:
@@ -156,3 +223,28 @@ def symbolic_nodes(m, n, positive=True):
     for y in ys:
         m.assume(y > 0)
     return ts, ys
+
+
+def py_curve_value(interp, tv, yv, xv):
+    """the rule's closed form in Python floats (independent oracle for native replays): nodes (tv[k], yv[k]) in any order"""
+    import math
+    n = len(tv)
+    order = sorted(range(n), key=lambda k: tv[k])
+    T = [tv[k] for k in order]; Y = [yv[k] for k in order]
+    jx = 1
+    while jx < n - 1 and T[jx] < xv:
+        jx += 1
+    i0, j0 = jx - 1, jx
+    w = (xv - T[i0]) / (T[j0] - T[i0])
+    if interp == "linear":
+        return Y[i0] + (Y[j0] - Y[i0]) * w
+    if interp == "log_linear":
+        return math.exp(math.log(Y[i0]) + (math.log(Y[j0]) - math.log(Y[i0])) * w)
+    if interp == "flat_forward":
+        return Y[j0] if xv >= T[j0] else Y[i0]
+    if interp == "flat_backward":
+        return Y[i0] if xv <= T[i0] else Y[j0]
+    tau, ti_, tj_ = (xv - T[0]), (T[i0] - T[0]), (T[j0] - T[0])
+    r2 = -math.log(Y[j0]) / tj_
+    rr_ = r2 if ti_ == 0 else (-math.log(Y[i0]) / ti_) + (r2 - (-math.log(Y[i0]) / ti_)) * ((tau - ti_) / (tj_ - ti_))
+    return math.exp(-rr_ * tau)
